@@ -4,7 +4,7 @@
                the listing node as parent; the reachable part is a well-founded tree; the root has no parent. *)
 From Coq Require Import List ZArith QArith Bool.
 Import ListNotations.
-Require Import QV.C09.Model QV.C09.Corr QV.C09.Proofs QV.C09.Proofs2.
+Require Import QV.C09.Model QV.C09.Corr QV.C09.Proofs QV.C09.Proofs2 QV.C09.Proofs3.
 
 (* every freshly constructed tree (Loop(...) with nested children, any counts / waveforms / measurements) satisfies Inv *)
 Theorem C09_init : forall t, sInv (init_state t).
@@ -41,16 +41,24 @@ Theorem C09_reset_walk_restores : forall fuel x h h' r,
 Proof. exact invalidate_none_spec. Qed.
 Print Assumptions C09_reset_walk_restores.
 
-(* one step / any finite history over the operations proved so far (waveform setter, both repetition setters,
-   duration / body_duration queries, ==, no-op), arbitrary target paths and arguments *)
+(* Loop.append_child of any freshly built tree under any node of the tree: the graft (parent / parent_index of the new
+   child) and the INCREMENTAL patch of every cached duration along the parent chain (or the reset, when the node was a
+   leaf with a waveform, after repair 3545bc6) preserve the invariant *)
+Theorem C09_append_child_preserves : forall h0 r x t h' res,
+  Inv h0 r -> reach h0 r x -> (c <- build t ;; append_child x c) h0 = (h', res) -> ok_result res -> Inv h' r.
+Proof. exact append_child_inv. Qed.
+Print Assumptions C09_append_child_preserves.
+
+(* one step / any finite history over the operations proved so far (append_child, waveform setter, both repetition
+   setters, duration / body_duration queries, ==, no-op), arbitrary target paths and arguments *)
 Theorem C09_step_partial : forall s o s' out,
-  sInv s -> proved_op o = true -> step s o = (s', out) -> out_ok out -> sInv s'.
-Proof. exact step_partial. Qed.
+  sInv s -> proved_op' o = true -> step s o = (s', out) -> out_ok out -> sInv s'.
+Proof. exact step_partial'. Qed.
 Print Assumptions C09_step_partial.
 
 Theorem C09_history_partial : forall ops s,
-  sInv s -> forallb proved_op ops = true -> run_ok s ops -> sInv (run s ops).
-Proof. exact history_partial. Qed.
+  sInv s -> forallb proved_op' ops = true -> run_ok s ops -> sInv (run s ops).
+Proof. exact history_partial'. Qed.
 Print Assumptions C09_history_partial.
 
 (* the hypotheses are satisfiable: a one-leaf program satisfies the invariant, and a proved operation runs on it *)
